@@ -303,8 +303,9 @@ func TestVerifC15(t *testing.T) {
 		}
 		fams = append(fams, family{"complement:" + m, comp})
 	}
+	transports := []string{"tcp", "mux-server", "mux-client"}
 	if p := vrt.ReplayPath(); p != "" {
-		var rp struct{ Family string }
+		var rp struct{ Family, Transport string }
 		_ = vfReadJSON(p, &rp)
 		var keep []family
 		for _, f := range fams {
@@ -313,87 +314,102 @@ func TestVerifC15(t *testing.T) {
 			}
 		}
 		fams = keep
+		if rp.Transport != "" {
+			transports = []string{rp.Transport}
+		}
 	}
 	var evals, nontrivial int64
+	perTransport := map[string]int64{}
 	bypass := metadata.Pairs(common.RequestTranslationHeaderName, "false")
-	for _, f := range fams {
-		cfg := config.ClusterConnConfig{ACLPolicy: &config.ACLPolicy{AllowedMethods: config.AllowedMethods{AdminService: f.list}}}
-		cl, err := vfStartCluster(cfg)
-		if err != nil {
-			res.Violate("acl/cluster-connection-fails", err.Error(), map[string]any{"family": f.name})
-			continue
-		}
-		allowed := map[string]bool{}
-		for _, m := range f.list {
-			allowed[m] = true
-		}
-		for _, mi := range vfAllMethods() {
-			for _, md := range []metadata.MD{nil, bypass} {
-				hdr := "no header"
-				if md != nil {
-					hdr = "s2s-request-translation=false"
-				}
-				replay := map[string]any{"family": f.name, "method": mi.Full, "header": hdr}
-				// remote side -> inbound server (policy applies)
-				cl.Local.Reset()
-				var err error
-				if mi.Streaming {
-					smd := metadata.Join(md, metadata.Pairs("temporal-client-cluster-id", "2", "temporal-client-shard-id", "1", "temporal-server-cluster-id", "1", "temporal-server-shard-id", "1"))
-					err = vfOpenStream(cl.FromRemote, mi, smd, func() bool { return len(cl.Local.Recorded()) > 0 })
-				} else {
-					_, err = vfInvoke(cl.FromRemote, mi, nil, md)
-				}
-				evals++
-				n := 0
-				for _, c := range cl.Local.Recorded() {
-					if c.Method == mi.Full {
-						n++
-					}
-				}
-				code := status.Code(err)
-				switch {
-				case mi.Service == "AdminService" && len(f.list) > 0 && !allowed[mi.Name]:
-					nontrivial++
-					if code != codes.PermissionDenied {
-						res.Violate("acl/admin-method-not-refused", fmt.Sprintf("allow-list %s, %s, %s: status %v (%v), want PermissionDenied", f.name, mi.Full, hdr, code, err), replay)
-					}
-					if n != 0 {
-						res.Violate("acl/refused-admin-call-reached-local-cluster", fmt.Sprintf("allow-list %s, %s, %s: the local cluster saw %d call(s)", f.name, mi.Full, hdr, n), replay)
-					}
-				case mi.Service == "AdminService":
-					if code == codes.PermissionDenied {
-						res.Violate("acl/allowed-admin-method-refused", fmt.Sprintf("allow-list %s, %s, %s: %v", f.name, mi.Full, hdr, err), replay)
-					} else if n != 1 {
-						res.Violate("acl/allowed-admin-call-not-forwarded-once", fmt.Sprintf("allow-list %s, %s, %s: the local cluster saw %d call(s), status %v", f.name, mi.Full, hdr, n, err), replay)
-					}
-				case mi.Name == "RegisterNamespace" || mi.Name == "DeprecateNamespace":
-					nontrivial++
-					if code != codes.PermissionDenied || n != 0 {
-						res.Violate("acl/namespace-lifecycle-call-not-refused", fmt.Sprintf("allow-list %s, %s, %s: status %v, local cluster saw %d call(s)", f.name, mi.Full, hdr, code, n), replay)
-					}
+	for _, transport := range transports {
+		for _, f := range fams {
+			if transport != "tcp" && !vrt.Thorough() && vrt.ReplayPath() == "" {
+				// quick: the mux transports get the base families and the singleton / complement lists of two methods
+				if strings.Contains(f.name, ":") && !strings.HasSuffix(f.name, ":DescribeCluster") && !strings.HasSuffix(f.name, ":StreamWorkflowReplicationMessages") {
+					continue
 				}
 			}
-		}
-		// local side -> outbound server: no policy there, admin calls are forwarded
-		for _, mi := range vfAllMethods() {
-			if mi.Service != "AdminService" || mi.Streaming {
+			cfg := config.ClusterConnConfig{ACLPolicy: &config.ACLPolicy{AllowedMethods: config.AllowedMethods{AdminService: f.list}}}
+			cl, err := vfStartClusterOn(cfg, transport)
+			if err != nil {
+				res.Violate("acl/cluster-connection-fails", transport+": "+err.Error(), map[string]any{"family": f.name, "transport": transport})
 				continue
 			}
-			cl.Remote.Reset()
-			_, err := vfInvoke(cl.FromLocal, mi, nil, nil)
-			evals++
-			if status.Code(err) == codes.PermissionDenied {
-				res.Violate("acl/outbound-server-refuses", fmt.Sprintf("allow-list %s: %s through the outbound (local-facing) server: %v", f.name, mi.Full, err), map[string]any{"family": f.name, "method": mi.Full})
+			allowed := map[string]bool{}
+			for _, m := range f.list {
+				allowed[m] = true
 			}
+			for _, mi := range vfAllMethods() {
+				for _, md := range []metadata.MD{nil, bypass} {
+					hdr := "no header"
+					if md != nil {
+						hdr = "s2s-request-translation=false"
+					}
+					replay := map[string]any{"family": f.name, "method": mi.Full, "header": hdr, "transport": transport}
+					hdr = transport + ", " + hdr
+					// remote side -> inbound server (policy applies)
+					cl.Local.Reset()
+					var err error
+					if mi.Streaming {
+						smd := metadata.Join(md, metadata.Pairs("temporal-client-cluster-id", "2", "temporal-client-shard-id", "1", "temporal-server-cluster-id", "1", "temporal-server-shard-id", "1"))
+						err = vfOpenStream(cl.FromRemote, mi, smd, func() bool { return len(cl.Local.Recorded()) > 0 })
+					} else {
+						_, err = vfInvoke(cl.FromRemote, mi, nil, md)
+					}
+					evals++
+					perTransport[transport]++
+					n := 0
+					for _, c := range cl.Local.Recorded() {
+						if c.Method == mi.Full {
+							n++
+						}
+					}
+					code := status.Code(err)
+					switch {
+					case mi.Service == "AdminService" && len(f.list) > 0 && !allowed[mi.Name]:
+						nontrivial++
+						if code != codes.PermissionDenied {
+							res.Violate("acl/admin-method-not-refused", fmt.Sprintf("allow-list %s, %s, %s: status %v (%v), want PermissionDenied", f.name, mi.Full, hdr, code, err), replay)
+						}
+						if n != 0 {
+							res.Violate("acl/refused-admin-call-reached-local-cluster", fmt.Sprintf("allow-list %s, %s, %s: the local cluster saw %d call(s)", f.name, mi.Full, hdr, n), replay)
+						}
+					case mi.Service == "AdminService":
+						if code == codes.PermissionDenied {
+							res.Violate("acl/allowed-admin-method-refused", fmt.Sprintf("allow-list %s, %s, %s: %v", f.name, mi.Full, hdr, err), replay)
+						} else if n != 1 {
+							res.Violate("acl/allowed-admin-call-not-forwarded-once", fmt.Sprintf("allow-list %s, %s, %s: the local cluster saw %d call(s), status %v", f.name, mi.Full, hdr, n, err), replay)
+						}
+					case mi.Name == "RegisterNamespace" || mi.Name == "DeprecateNamespace":
+						nontrivial++
+						if code != codes.PermissionDenied || n != 0 {
+							res.Violate("acl/namespace-lifecycle-call-not-refused", fmt.Sprintf("allow-list %s, %s, %s: status %v, local cluster saw %d call(s)", f.name, mi.Full, hdr, code, n), replay)
+						}
+					}
+				}
+			}
+			// local side -> outbound server: no policy there, admin calls are forwarded
+			for _, mi := range vfAllMethods() {
+				if mi.Service != "AdminService" || mi.Streaming {
+					continue
+				}
+				cl.Remote.Reset()
+				_, err := vfInvoke(cl.FromLocal, mi, nil, nil)
+				evals++
+				if status.Code(err) == codes.PermissionDenied {
+					res.Violate("acl/outbound-server-refuses", fmt.Sprintf("%s, allow-list %s: %s through the outbound (local-facing) server: %v", transport, f.name, mi.Full, err), map[string]any{"family": f.name, "method": mi.Full, "transport": transport})
+				}
+			}
+			cl.Close()
 		}
-		cl.Close()
 	}
+	res.Set("evaluations_per_transport", perTransport)
 	res.Set("evaluations", evals)
 	res.Set("distinct_nontrivial", nontrivial)
 	res.Set("allow_list_families", int64(len(fams)))
-	res.Set("rule", "real ClusterConnection (TCP, loopback) with an ACL policy: allow-list families {empty, full, non-existent names only, singleton and complement-of-singleton for the selected admin methods (all of them in thorough)} x every method of AdminService and WorkflowService (streaming method opened as a stream) x {no header, s2s-request-translation=false}; plus every unary admin method through the outbound server; non-trivial = cases that must be refused")
+	res.Set("rule", "real ClusterConnection (remote side on TCP, mux-server and mux-client transports over loopback; for the mux transports the harness owns the peer end of the yamux session) with an ACL policy: allow-list families {empty, full, non-existent names only, singleton and complement-of-singleton for the selected admin methods (all of them in thorough)} x every method of AdminService and WorkflowService (streaming method opened as a stream) x {no header, s2s-request-translation=false}; plus every unary admin method through the outbound server; non-trivial = cases that must be refused")
 	res.Set("exhaustive", true)
-	res.Set("transports", "tcp (the mux transports share buildProxyServer/makeServerOptions; they are not driven end to end here)")
+	res.Set("transports", "tcp, mux-server, mux-client (quick: the mux transports get the base families and the singleton/complement lists of DescribeCluster and StreamWorkflowReplicationMessages; thorough: every family on every transport)")
 	res.Sample(map[string]any{"family": fams[len(fams)-1].name, "method": "/temporal.server.api.adminservice.v1.AdminService/DescribeCluster"})
 	_ = time.Second
 }
